@@ -897,3 +897,37 @@ Proof.
     + intros _. rewrite <- app_assoc. apply firstn_len_app.
 Qed.
 End E2E.
+
+(* IMPLICIT CHECKPOINTS, end to end: if the trace of a run contains a checkpointing item (see [ckpt_item]), every message in
+   the engine's cache at the end of the run -- what a resume() at that point replays -- was executed after that item *)
+Theorem implicit_checkpoint_e2e (P : Type) (presume : P -> input -> outcome P) (plan_of : nat -> P) (D : Type)
+  (dev : D -> nat -> devmeth -> D * devres) (d : D) (paus stag : list nat) (rec : bool) (evs : list event) t1 it t2 l :
+  trace P presume plan_of D dev (init d paus stag rec) evs = t1 ++ it :: t2 ->
+  ckpt_item (mon_run mon0 t1) it = true ->
+  cache (fst (run presume plan_of dev (init d paus stag rec) evs)) = Some l ->
+  Forall (fun y => In (TObs (OMsg y)) t2) l.
+Proof.
+  intros E Hc Hl. rewrite (cache_is_trace_spec P presume plan_of D dev d paus stag rec evs), E in Hl.
+  eapply spec_cache_after_checkpoint; eassumption.
+Qed.
+
+(* the tail of the suspender helper plan (after the release: post-plan done, rewindable restored) replays the messages
+   captured by _start_suspender in the same way *)
+Theorem suspender_tail_replays (P : Type) (presume : P -> input -> outcome P) (plan_of : nat -> P) (D : Type)
+  (dev : D -> nat -> devmeth -> D * devres) (s : st P D) h B RB v w :
+  state s = Running -> permit s = true -> pc s = PcSleep0 -> plans s = FHelper h :: B -> hph h = HRwBack ->
+  resps s = RVal v :: RB -> stashed s = None -> exc_slot s = None -> must_cancel s = false ->
+  List.length RB = List.length B -> B <> [] ->
+  Forall (fun x => cacheable (mcmd x) = true) (hrw h) ->
+  Forall (fun e => RE_C10.cont_ev e = true) w ->
+  okobs (snd (run presume plan_of dev s w)) ->
+  (exists ms', map OMsg (hrw h) = pm (snd (run presume plan_of dev s w)) ++ map OMsg ms') \/
+  (exists o', pm (snd (run presume plan_of dev s w)) = map OMsg (hrw h) ++ o' /\
+     (o' = [] \/ exists top tl r rest o'', B = top :: tl /\ RB = r :: rest /\ o' = cont_pm P presume top r ++ o'')).
+Proof.
+  intros Hs Hp Hpc Hpl Hh Hr Hst Hex Hmc HL HB Hc Hw Hok.
+  apply (replay_then_continue P presume plan_of D dev B RB s (hrw h) w HL HB); try assumption.
+  right. unfold PhRun, quiet_ctl. repeat split; try assumption.
+  - exists (FHelper h). split; [|exact Hpl]. right. exists h. split; [reflexivity|]. right. split; [exact Hh | reflexivity].
+  - left. split; [exact Hpc|]. exists v. exact Hr.
+Qed.
